@@ -106,8 +106,11 @@ NGas(e) == Cardinality({ n \in DOMAIN e.calls : GasJudged(e.calls[n]) })
 \*     with what it had after paying for the instruction and the forwarded gas.  rev = the callee's last instruction was an
 \*     executed REVERT (such a frame keeps its unused gas).  A creation whose init code finished but whose code deposit
 \*     could not be paid is an error frame too.
-ErrFrame(c) == c.closed /\ c.entered /\ ~c.ok /\ ~c.rev
-NoGasBack(c) == IF IsCreate(c) THEN c.g1 = BigSub(c.g0, c.gin) ELSE c.g1 = c.g0
+\*     coll = a creation refused because its address is taken (no instruction of the init code runs): what was forwarded
+\*     -- everything for CREATE as coded here, all but 1/64 for CREATE2 -- is gone as well.
+ErrFrame(c) == c.closed /\ ~c.ok /\ ((c.entered /\ ~c.rev) \/ c.coll)
+NoGasBack(c) == IF c.coll THEN c.g1 = (IF c.op = "CREATE2" THEN BigDivMod(c.g0, "64")[1] ELSE "0")
+                ELSE IF IsCreate(c) THEN c.g1 = BigSub(c.g0, c.gin) ELSE c.g1 = c.g0
 ErrGasLeaves(e) == { <<"ErrorFrameReturnsNoGas", {Kind(e.calls[i])}, l>> :
                         i \in { n \in DOMAIN e.calls : ErrFrame(e.calls[n]) /\ ~NoGasBack(e.calls[n]) } }
 NErr(e) == Cardinality({ n \in DOMAIN e.calls : ErrFrame(e.calls[n]) })
